@@ -800,11 +800,11 @@ open CssVerif.EncTok
 open CssVerif.Gen.C05 (productions reIDENT reFUNCTION reDIMENSION reHASH reATKEYWORD reSTRING reINVALID reCHAR reS
   rePERCENTAGE reNUMBER)
 
-/-- the productions whose first match is proved to be kept: everything but URI, UNICODE-RANGE (open: see the
-comment below), FUNCTION (`escapecss_keeps_function`) and CHAR (`escapecss_keeps_char`) -/
+/-- the productions whose first match is proved to be kept on EVERY guarded text: all but FUNCTION (kept wherever the
+tokenizer tries it: `escapecss_keeps_function`) and CHAR (kept wherever it is reached: `escapecss_keeps_char`) -/
 def keptProductions : List String :=
-  ["S", "IDENT", "DIMENSION", "PERCENTAGE", "NUMBER", "HASH", "COMMENT", "STRING", "INVALID", "ATKEYWORD", "INCLUDES",
-   "DASHMATCH", "PREFIXMATCH", "SUFFIXMATCH", "SUBSTRINGMATCH", "CDO", "CDC"]
+  ["S", "URI", "UNICODE-RANGE", "IDENT", "DIMENSION", "PERCENTAGE", "NUMBER", "HASH", "COMMENT", "STRING", "INVALID",
+   "ATKEYWORD", "INCLUDES", "DASHMATCH", "PREFIXMATCH", "SUFFIXMATCH", "SUBSTRINGMATCH", "CDO", "CDC"]
 
 /-- every ASCII-compatible encoding gives a `SyntaxRep` -/
 theorem asciiRep_syntax (rep : Nat → Bool) (ha : AsciiRep rep) : SyntaxRep rep := by
@@ -825,21 +825,27 @@ theorem asciiRep_syntax (rep : Nat → Bool) (ha : AsciiRep rep) : SyntaxRep rep
         · simp at h
 
 /-- the checker accepts the name productions of the regenerated table (and the ASCII-only ones) -/
-theorem productions_checked : ∀ p ∈ productions, p.1 ∈ keptProductions → p.1 ≠ "STRING" → p.1 ≠ "INVALID" →
-    p.1 ≠ "COMMENT" → firstPres p.2 = true := by decide
+def checkedProductions : List String :=
+  ["S", "IDENT", "DIMENSION", "PERCENTAGE", "NUMBER", "HASH", "ATKEYWORD", "INCLUDES", "DASHMATCH", "PREFIXMATCH",
+   "SUFFIXMATCH", "SUBSTRINGMATCH", "CDO", "CDC"]
 
-/-- T8.4c `escapecss_keeps_first_match_partial`: for every production of the regenerated table listed in
-`keptProductions` — S, IDENT, DIMENSION, PERCENTAGE, NUMBER, HASH, COMMENT, STRING, INVALID, ATKEYWORD and the fixed
-lexemes — every target encoding that can represent ASCII, and every guarded text `s` (the text from the tokenizer's
-`pos` on): `pattern.match` on the escaped text finds the image of what it found on the original, and nothing if it
-found nothing. So a non-ASCII character replaced by `\HEX␠` inside a token of these types keeps the token's boundaries,
-and no such token appears where there was none.
+theorem productions_checked : ∀ p ∈ productions, p.1 ∈ checkedProductions → firstPres p.2 = true := by decide
 
-FULL STATEMENT (not proved): the same for all 21 productions and with the guard of `escapecss_lossless_by_kind`
-(no character to be escaped directly after an UNESCAPED backslash) instead of "after any backslash"; then
-`Tok.tokenize (escape rep s)` has the items of `Tok.tokenize s` with escaped spans. Open: URI, UNICODE-RANGE (their
-`\55 \52 \4c` letter escapes can match the head of an escape `_escapecss` writes, e.g. `\550 `, so a sub-pattern is
-not kept although the production is; the unquoted `url(` body reaches the same end by several splits). -/
+theorem kept_split : ∀ n ∈ keptProductions, n ∈ checkedProductions ∨ n = "STRING" ∨ n = "INVALID" ∨ n = "COMMENT" ∨
+    n = "URI" ∨ n = "UNICODE-RANGE" := by decide
+
+/-- T8.4c `escapecss_keeps_first_match_partial`: for every production of the regenerated table except FUNCTION and
+CHAR — S, URI, UNICODE-RANGE, IDENT, DIMENSION, PERCENTAGE, NUMBER, HASH, COMMENT, STRING, INVALID, ATKEYWORD and the
+fixed lexemes — every target encoding that can represent ASCII, and every guarded text `s` (the text from the
+tokenizer's `pos` on): `pattern.match` on the escaped text finds the image of what it found on the original, and
+nothing if it found nothing. So a non-ASCII character replaced by `\HEX␠` inside a token keeps the token's boundaries,
+and no token appears where there was none. (IDENT … ATKEYWORD and the ASCII-only productions through the syntactic
+checker `firstPres`; STRING, INVALID, COMMENT, URI, UNICODE-RANGE by the hand proofs of `Lemmas/EncTok.lean`.)
+
+`_partial`: the guard is "no character to be escaped directly after ANY backslash"; the FULL statement has the guard
+of `escapecss_lossless_by_kind` (after an UNESCAPED backslash), which is not a property of the text alone but of where
+the tokens start. Texts with `\\ä` (an even run of backslashes before a character to be escaped) are the gap; the
+harness explores them (`E:escaped:even`). -/
 theorem escapecss_keeps_first_match_partial (rep : Nat → Bool) (ha : AsciiRep rep) :
     ∀ p ∈ productions, p.1 ∈ keptProductions → ∀ s : List Nat, guard rep s = true → (∀ c ∈ s, c ≤ maxUnicode) →
       p.2.first (escape rep s) = (p.2.first s).map (elen rep s) := by
@@ -847,13 +853,15 @@ theorem escapecss_keeps_first_match_partial (rep : Nat → Bool) (ha : AsciiRep 
   have hS : ∀ p ∈ productions, p.1 = "STRING" → p.2 = reSTRING := by decide
   have hV : ∀ p ∈ productions, p.1 = "INVALID" → p.2 = reINVALID := by decide
   have hC : ∀ p ∈ productions, p.1 = "COMMENT" → p.2 = Gen.C05.reCOMMENT := by decide
-  by_cases h1 : p.1 = "STRING"
-  · rw [hS p hp h1]; exact string_firstPres rep ha s ⟨hg, hm⟩
-  · by_cases h2 : p.1 = "INVALID"
-    · rw [hV p hp h2]; exact invalid_firstPres rep ha s ⟨hg, hm⟩
-    · by_cases h3 : p.1 = "COMMENT"
-      · rw [hC p hp h3]; exact comment_firstPres rep ha s ⟨hg, hm⟩
-      · exact firstPres_sound rep ha p.2 (productions_checked p hp hk h1 h2 h3) s ⟨hg, hm⟩
+  have hU : ∀ p ∈ productions, p.1 = "URI" → p.2 = Gen.C05.reURI := by decide
+  have hR : ∀ p ∈ productions, p.1 = "UNICODE-RANGE" → p.2 = Gen.C05.reUNICODE_RANGE := by decide
+  rcases kept_split p.1 hk with h | h | h | h | h | h
+  · exact firstPres_sound rep ha p.2 (productions_checked p hp h) s ⟨hg, hm⟩
+  · rw [hS p hp h]; exact string_firstPres rep ha s ⟨hg, hm⟩
+  · rw [hV p hp h]; exact invalid_firstPres rep ha s ⟨hg, hm⟩
+  · rw [hC p hp h]; exact comment_firstPres rep ha s ⟨hg, hm⟩
+  · rw [hU p hp h]; exact uri_firstPres rep ha s ⟨hg, hm⟩
+  · rw [hR p hp h]; exact unicodeRange_firstPres rep ha s ⟨hg, hm⟩
 
 /-- FUNCTION is IDENT followed by `(` (`tokenize2.py:196-202` skips an IDENT that is directly followed by `(`): it is
 kept where the identifier in front of the parenthesis is, and absent where there is no identifier -/
@@ -955,6 +963,9 @@ example : Gen.C05.reCOMMENT.first [0x2F, 0x2A, 0xE4, 0x2A, 0x2A, 0x2F, 0x78] = s
 `\\E4 ;` it is the IDENT `\\E4` of 4 characters followed by white space — the token boundary moved -/
 example : guard repAscii [0x5C, 0xE4, 0x3B] = false ∧ reIDENT.first [0x5C, 0xE4, 0x3B] = some 2 ∧
     elen repAscii [0x5C, 0xE4, 0x3B] 2 = 5 ∧ reIDENT.first (escape repAscii [0x5C, 0xE4, 0x3B]) = some 4 := by decide
+/-- `url(ä)x`: URI takes 6; escaped `url(\E4 )x`: 9 -/
+example : Gen.C05.reURI.first [0x75, 0x72, 0x6C, 0x28, 0xE4, 0x29, 0x78] = some 6 ∧
+    Gen.C05.reURI.first (escape repAscii [0x75, 0x72, 0x6C, 0x28, 0xE4, 0x29, 0x78]) = some 9 := by decide
 /-- a sub-pattern is not kept although URI is: `{U}` (`u|\\0{0,4}(55|75)…`) does not match `ա` (U+0561 is fine, U+0550
 is not) but matches the head `\55` of its escape `\550 ` -/
 example : escape repAscii [0x550] = [0x5C, 0x35, 0x35, 0x30, 0x20] ∧
